@@ -37,9 +37,11 @@ func (n *verifNode) Stop()                                                      
 
 // VerifProgress is one row of the raft progress table handed to the stub node.
 type VerifProgress struct {
-	ID    uint64
-	State int // 0 probe, 1 replicate, 2 snapshot (raftlib.ProgressStateType)
-	Match uint64
+	ID     uint64
+	State  int // 0 probe, 1 replicate, 2 snapshot (raftlib.ProgressStateType)
+	Match  uint64
+	Next   uint64 // 0 = Match + 1
+	Active bool   // raft's RecentActive
 }
 
 // VerifNewCluster builds a real Cluster through the real addMember/removeMember: every member
@@ -80,7 +82,11 @@ func (cl *Cluster) VerifSetRaft(hasNode bool, statusID uint64, leader bool, last
 	if hasNode {
 		st := raftlib.Status{ID: statusID, Progress: map[uint64]raftlib.Progress{}}
 		for _, p := range prog {
-			st.Progress[p.ID] = raftlib.Progress{Match: p.Match, Next: p.Match + 1, State: raftlib.ProgressStateType(p.State)}
+			next := p.Next
+			if next == 0 {
+				next = p.Match + 1
+			}
+			st.Progress[p.ID] = raftlib.Progress{Match: p.Match, Next: next, State: raftlib.ProgressStateType(p.State), RecentActive: p.Active}
 		}
 		rs.node = &verifNode{st: st}
 	}
